@@ -255,3 +255,65 @@ pub fn sym_dual_connector(nr: usize, nl: usize) -> DualConnector {
     }
     DualConnector::verif_from_parts(m, rmap, lmap, rows_r, rows_l, Scorer::verif_from_parts(b, ch, co))
 }
+
+
+/// A reader for truncation harnesses: the stream is `data[..end]` with a possibly *symbolic*
+/// `end`.  `read_exact` is overridden so that (a) the position advances by the requested length
+/// on both outcomes and therefore stays a constant for symex, (b) the only symbolic thing is the
+/// `Ok`/`Err` outcome `pos + len <= end`, and (c) `std`'s default `read_exact` loop, which inspects
+/// the bit-packed `io::Error` (`is_interrupted`) and does not fold, is not involved.  After an
+/// `Err` the decoder returns, so the advanced position is never used again.
+#[derive(Debug)]
+pub struct Eof(pub u8);
+impl core::fmt::Display for Eof {
+    fn fmt(&self, _f: &mut core::fmt::Formatter<'_>) -> core::fmt::Result {
+        Ok(())
+    }
+}
+impl std::error::Error for Eof {}
+
+pub struct CutReader<'a> {
+    pub data: &'a [u8],
+    pub pos: usize,
+    pub end: usize,
+}
+
+impl<'a> CutReader<'a> {
+    pub fn new(data: &'a [u8], end: usize) -> Self {
+        Self { data, pos: 0, end }
+    }
+}
+
+impl<'a> std::io::Read for CutReader<'a> {
+    fn read(&mut self, buf: &mut [u8]) -> std::io::Result<usize> {
+        // not used by bincode's IoReader (it calls read_exact); kept total for completeness
+        match self.read_exact(buf) {
+            Ok(()) => Ok(buf.len()),
+            Err(e) => Err(e),
+        }
+    }
+
+    fn read_exact(&mut self, buf: &mut [u8]) -> std::io::Result<()> {
+        let start = self.pos;
+        let n = buf.len();
+        self.pos = start + n;
+        let beyond_data = start + n > self.data.len();
+        // The bytes are delivered whenever the underlying data has them, even if the stream is
+        // cut before: bincode's `Result` plumbing (`?` through niche-encoded enums) does not fold
+        // under CBMC, so the continuation after an `Err` is explored although it is infeasible.
+        // With the real bytes in the buffer that continuation stays concrete and cheap, and the
+        // solver discards it; with an unwritten buffer it would decode nondeterministic lengths.
+        if !beyond_data {
+            let mut i = 0;
+            while i < n {
+                buf[i] = self.data[start + i];
+                i += 1;
+            }
+        }
+        if beyond_data || start + n > self.end {
+            // a boxed (heap) error rather than the bit-packed `io::Error::from(ErrorKind)`
+            return Err(std::io::Error::new(std::io::ErrorKind::UnexpectedEof, Eof(1)));
+        }
+        Ok(())
+    }
+}
